@@ -49,13 +49,16 @@ sh("git checkout -q -- . && git clean -fdq src", wt, check=True)
 ok = (not [f for f in res["suite_with_patch"]["failed"] if f != "beacon::encode_decode_cmd"]) and bool([f for f in failed2 if f != "beacon::encode_decode_cmd"]) and not [f for f in failed3 if f != "beacon::encode_decode_cmd"]
 res["confirmed"] = ok
 print(json.dumps(res, indent=1))
+json.dump(res, open(os.path.join(sd, "eval.json"), "w"), indent=1)
+if "--no-checks" in sys.argv:
+    sys.exit(0)
 # 4. run checks against /repo with the patch applied
 st = sh("git -C /repo status --porcelain --untracked-files=no").stdout.strip()
 if st:
     sys.exit("/repo is not clean: " + st)
 sh("git -C /repo apply %s/patch.diff" % sd, check=True)
 try:
-    props = [pid] + [p for p in sys.argv[3:]]
+    props = [pid]
     allp = ["C%02d" % i for i in range(1, 21)]
     det = {}
     for p in allp:
